@@ -64,13 +64,20 @@ func VerifH_C20_args() {
 	args := []string{"t"}
 	names := make([]int, n)
 	hasEq := make([]bool, n)
+	decimal := make([]bool, n)
 	for i := 0; i < n; i++ {
 		names[i] = symChoice("name", len(vOptionNames))
 		hasEq[i] = symChoice("has-eq", 2) == 1
 		a := vOptionNames[names[i]]
 		if hasEq[i] {
-			// the value: a short arbitrary byte string
-			a += "=" + symString("val"+string(rune('0'+i)), symChoice("vallen", symParam("maxval", 2)+1))
+			// the value: a short arbitrary byte string, or (for the two numeric
+			// options) the decimal number 10
+			if (names[i] == 1 || names[i] == 2) && symChoice("decimal", 2) == 1 {
+				a += "=10"
+				decimal[i] = true
+			} else {
+				a += "=" + symString("val"+string(rune('0'+i)), symChoice("vallen", symParam("maxval", 2)+1))
+			}
 		}
 		args = append(args, a)
 	}
@@ -112,6 +119,14 @@ func VerifH_C20_args() {
 		symAssert(vC20OpenCalled == 1, "store-opened-once")
 		symAssert(vC20SawRO == ro, "readonly-reaches-the-store-options")
 		symAssert(vt.S3Options.ReadOnly == ro, "readonly-recorded")
+		for i := 0; i < n; i++ {
+			if decimal[i] && names[i] == 1 {
+				symAssert(vt.S3Options.EntriesPerNode == 10, "entries-per-node-is-the-number-given")
+			}
+			if decimal[i] && names[i] == 2 {
+				symAssert(vt.S3Options.NodeCacheEntries == 10, "node-cache-entries-is-the-number-given")
+			}
+		}
 		symReach("accepted")
 	}
 	if unknown || dup || malformed || !hasColumns {
@@ -226,5 +241,45 @@ func VerifH_C20_schema() {
 	}
 	symAssert(strings.HasSuffix(decl, ") WITHOUT ROWID"), "declared-without-rowid")
 	symReach("accepted")
+	symReach("end")
+}
+
+// H20c / H06b: a column declared NOT NULL refuses NULL (SQLite does not
+// enforce declared constraints on virtual tables, the table has to).
+func VerifH_C20_notnull() {
+	bkt := vNewBucket()
+	vt := vMustOpen(bkt.client(1), vTableOpts{bf: 2}, 10)
+	bNotNull := symChoice("b-not-null", 2) == 1
+	cNotNull := symChoice("c-not-null", 2) == 1
+	vt.schema = &sqlTypes.Schema{
+		Columns:    []sqlTypes.SchemaColumn{{Name: "a", NotNull: true}, {Name: "b", NotNull: bNotNull}, {Name: "c", NotNull: cNotNull}},
+		PrimaryKey: []string{"a"},
+	}
+	val := func(name string) interface{} {
+		if symChoice(name+"-null", 2) == 1 {
+			return nil
+		}
+		return symInt64(name)
+	}
+	b, c := val("b"), val("c")
+	_, err := vt.Insert(vAt(100), map[int]interface{}{0: int64(1), 1: b, 2: c})
+	violates := (bNotNull && b == nil) || (cNotNull && c == nil)
+	if violates {
+		symAssert(err == ErrS3DBConstraintNotNull, "insert-of-null-into-not-null-column-refused")
+		ok, _ := vHas(vt, int64(1))
+		symAssert(!ok, "refused-insert-leaves-no-row")
+	} else {
+		symAssert(err == nil, "insert-ok")
+		// UPDATE assigning NULL to a NOT NULL column is refused as well and changes nothing
+		before, _ := vScan(vt)
+		err := vt.Update(vAt(200), int64(1), map[int]interface{}{1: nil})
+		if bNotNull {
+			symAssert(err == ErrS3DBConstraintNotNull, "update-to-null-of-not-null-column-refused")
+			after, _ := vScan(vt)
+			symAssert(vRowsEq(before, after), "refused-update-changes-nothing")
+		} else {
+			symAssert(err == nil, "update-ok")
+		}
+	}
 	symReach("end")
 }
